@@ -59,7 +59,10 @@ impl InkList {
             ink_list.items.insert(item.clone(), *value);
         }
 
-        ink_list.initial_origin_names = other_list.initial_origin_names.clone();
+        // like the reference copy constructor: the origin names the other list has
+        // *now* (for a non-empty list they come from its items), so that the copy
+        // still knows its lists when every item is removed from it
+        ink_list.initial_origin_names = RefCell::new(other_list.get_origin_names());
 
         ink_list.origins = other_list.origins.clone();
 
@@ -209,7 +212,9 @@ impl InkList {
         }
 
         let mut sub_list = InkList::new();
-        sub_list.set_initial_origin_names(self.initial_origin_names.borrow().clone());
+        // the origins of this list as it is now (for a non-empty list they come from
+        // its items), so that an empty range still knows which lists it belongs to
+        sub_list.set_initial_origin_names(self.get_origin_names());
 
         for (k, v) in ordered {
             if *v >= min_value && *v <= max_value {
